@@ -4,11 +4,13 @@ CONSTANTS MaxN
 Rows == {<<1, 0>>, <<0, 1>>, <<1, 2>>, <<-1, 3>>}
 GSmall == {[j |-> j, r |-> r] : j \in {-2, 0, 3}, r \in {<<0, 1>>, <<1, 1>>, <<-3, 1>>, <<1, 2>>, <<-7, 4>>}}
 GHuge == {[j |-> 0, r |-> <<300, 1>>], [j |-> 0, r |-> <<-125, 1>>]}           \* residuals of hundreds of sigma
-GData == GSmall \cup GHuge
+GScale == {[j |-> 40, r |-> <<0, 1>>], [j |-> 0 - 40, r |-> <<0, 1>>]}            \* uncertainties of 2^40 and 2^-40 (any scale)
+GData == GSmall \cup GHuge \cup GScale
 LData == {[j |-> j, q |-> q] : j \in {-2, 0, 3}, q \in {<<"rat", 1, 1>>, <<"rat", 2, 1>>, <<"rat", 1, 3>>, <<"rat", 5, 2>>,
                                                          <<"pow2", 40>>, <<"pow2", -40>>, <<"pow2", 600>>, <<"pow2", -1100>>, <<"pow2", 1100>>}}
 Three == {[j |-> j, r |-> r] : j \in {0, 3}, r \in {<<1, 1>>, <<-3, 1>>, <<1, 2>>}}
          \cup {[j |-> j, q |-> q] : j \in {0, 3}, q \in {<<"rat", 1, 1>>, <<"rat", 1, 3>>, <<"pow2", -40>>}}
+Rep == 32
 VARIABLES kind, data, jac, out
 Init == /\ kind \in {"gauss", "cauchy", "logistic"}
         /\ \E n \in 1..MaxN : /\ data \in [1..n -> IF kind = "logistic" THEN LData ELSE GData]
@@ -18,7 +20,10 @@ Init == /\ kind \in {"gauss", "cauchy", "logistic"}
         /\ out = 0
 Next == /\ out = 0 /\ out' = 1 /\ UNCHANGED <<kind, data, jac>>
         /\ PrintT(ToJson([kind |-> kind, data |-> data, jac |-> jac, value |-> Value(kind, data), grad |-> Gradient(kind, data, jac),
-                          cost |-> Cost(kind, data), costgrad |-> CostGradient(kind, data, jac)]))
+                          cost |-> Cost(kind, data), costgrad |-> CostGradient(kind, data, jac),
+                          \* the same data set repeated Rep times (independent data: log-densities add): thousands of data points
+                          rep |-> Rep, value_rep |-> SScale(RInt(Rep), Value(kind, data)),
+                          grad_rep |-> [a \in 1..Len(Gradient(kind, data, jac)) |-> SScale(RInt(Rep), Gradient(kind, data, jac)[a])]]))
 \* cost and cost-gradient are the exact negatives (checked on the reference itself)
 NegConsistent == Cost(kind, data).rat = RNeg(Value(kind, data).rat)
 ====
